@@ -162,6 +162,54 @@ def check_write_discipline(chk):
             chk.ok("G-IO.read", "read_file", {"where": where})
 
 
+def check_error_codes(chk):
+    """G-IO.ec: an `std::error_code` handed to a call reports that call's outcome only until the next call it is
+    handed to (every error_code overload clears or overwrites it).  For every local error_code of the sbeppc TU: each
+    call that receives it must be followed - before the next call that receives it and before the function returns -
+    by a test of the variable whose failing arm leaves the function through throw_error / a throw / a non-zero
+    return.  Otherwise the failure of that operation is lost (the file is missing or stale and sbeppc exits 0)."""
+    f = gen.facts()
+    n = 0
+    for fn in gen.sbeppc_functions(f):
+        ecs = stream_vars(fn, "error_code")
+        if not ecs:
+            continue
+        idx = order_index(fn)
+        where = "%s:%s" % (rel(fn["file"]), fn["line"])
+        for did, name in ecs.items():
+            writers, tests = [], []
+            for x in walk(fn["body"]):
+                c = x.get("callee")
+                if c and x.get("k") in ("CallExpr", "CXXMemberCallExpr", "CXXOperatorCallExpr"):
+                    args = x.get("args") or []
+                    if any(refs_var(a, did) for a in args) and c.get("name") not in ("throw_error", "format", "arg", "message"):
+                        # only calls that take the variable itself (an lvalue), not `ec.message()` passed along
+                        direct = any(gen.strip(a) is not None and gen.strip(a).get("k") == "DeclRefExpr" and gen.strip(a).get("did") == did for a in args)
+                        if direct:
+                            writers.append(x)
+                if x.get("k") == "IfStmt" and refs_var(x.get("cond") or {}, did):
+                    leaves = gen.always_exits(x.get("then")) or (x.get("else") is not None and gen.always_exits(x.get("else")))
+                    tests.append((x, leaves))
+            writers.sort(key=lambda w: idx[id(w)])
+            for i, w in enumerate(writers):
+                n += 1
+                nxt = idx[id(writers[i + 1])] if i + 1 < len(writers) else None
+                cname = (w.get("callee") or {}).get("name")
+                key = "ec:%s:%s#%d" % (gguard.short_fn(fn), cname, i)
+                good = [t for t, leaves in tests if leaves and idx[id(t)] > idx[id(w)] and (nxt is None or idx[id(t)] < nxt)]
+                wl = "%s:%s" % (rel(fn["file"]), w.get("l"))
+                if good:
+                    chk.ok("G-IO.ec", key, {"where": wl, "call": cname, "tested_at_line": good[0].get("l")}, nontrivial=True)
+                else:
+                    chk.violation("G-IO.ec", "ec:%s:%s" % (gguard.short_fn(fn), cname), wl,
+                                  "the error_code `%s` set by %s(...) in %s is %s: a failure of that call is never reported and "
+                                  "sbeppc exits 0" % (name, cname, gguard.short_fn(fn),
+                                                     "handed to %s(...) before it is tested" % ((writers[i + 1].get("callee") or {}).get("name"))
+                                                     if nxt is not None else "not tested with an arm that raises an error"))
+    chk.floor("error_code call sites", n, 1)
+    return n
+
+
 _IOS = {}
 
 
